@@ -859,6 +859,8 @@ func runSeq(p Profile, seed uint64, cas int) *SeqRes {
 			}
 		}
 		if op != nil {
+		} else if p.Recycle && rng.Intn(45) == 0 && s.bigShrinkStraddle() {
+			continue
 		} else if p.Recycle && rng.Intn(25) == 0 {
 			op = s.sparseBurst()
 		} else if p.NearFull && (p.AfterFail || p.TwinEvery > 0 || p.FsckEvery > 0 || p.ZeroScan) && rng.Intn(5) < 2 {
@@ -1516,6 +1518,42 @@ func (s *Sess) exhaustInodes() {
 	for i := 0; i < n; i += n/40 + 1 {
 		s.exec(&Op{K: OpRemove, H: dfh, Name: fmt.Sprintf("i%05d", i)})
 	}
+}
+
+// bigShrinkStraddle: a file too big to be truncated inside one transaction is
+// cut down to a small unaligned size (the background shrinker starts) and,
+// right away, written across its new end, grown and read: the bytes between
+// the end of that write and the new size were never written and must be zero,
+// whatever the shrinker has or has not freed yet.
+func (s *Sess) bigShrinkStraddle() bool {
+	st := s.srv.N.VerifFsState()
+	if st.Balloc.NumFree() < 800 {
+		return false
+	}
+	name := fmt.Sprintf("straddle%d", s.step)
+	r := s.exec(&Op{K: OpCreate, H: s.srv.Root, Name: name})
+	if r.Stat != stOK {
+		return false
+	}
+	for k := 0; k < 9; k++ {
+		s.nextUid++
+		n := uint32(64 * BlockSize)
+		if w := s.exec(&Op{K: OpWrite, H: r.FH, Off: uint64(k) * uint64(n), Count: n, DataLen: n, Uid: s.nextUid, Stable: 0}); w.Stat != stOK {
+			break
+		}
+	}
+	sz := uint64(BlockSize + s.rng.Intn(3*BlockSize))
+	s.exec(&Op{K: OpSetattr, H: r.FH, SetSize: true, Size: sz})
+	s.nextUid++
+	cnt := uint32(200 + s.rng.Intn(3000))
+	s.exec(&Op{K: OpWrite, H: r.FH, Off: sz - uint64(1+s.rng.Intn(100)), Count: cnt, DataLen: cnt, Uid: s.nextUid, Stable: s.rng.Intn(3)})
+	s.exec(&Op{K: OpSetattr, H: r.FH, SetSize: true, Size: sz + uint64(2+s.rng.Intn(4))*BlockSize + 77})
+	s.exec(&Op{K: OpRead, H: r.FH, Off: 0, Count: 65536})
+	if s.rng.Intn(2) == 0 {
+		s.exec(&Op{K: OpRemove, H: s.srv.Root, Name: name})
+	}
+	s.res.Stats.Add("big-shrink-then-write-across-the-new-end")
+	return true
 }
 
 // sparseBurst queues a short script on one file: data up to an index-range
